@@ -1,8 +1,9 @@
 pub mod vergen;
 pub mod c01;
+pub mod c14;
 
 use crate::engine::Property;
 
 pub fn all() -> Vec<Property> {
-    vec![c01::property()]
+    vec![c01::property(), c14::property()]
 }
